@@ -1,4 +1,9 @@
-use std::time::{Duration, Instant};
+use std::time::Duration;
+#[cfg(not(mrecordlog_verif))]
+use std::time::Instant;
+
+#[cfg(mrecordlog_verif)]
+use crate::verif::Instant;
 
 #[derive(Copy, Clone, Debug, PartialEq, Eq)]
 pub enum PersistAction {
